@@ -18,6 +18,19 @@ namespace EPV.Sedov
 def SingularType (p : SedovInit.P) : Prop :=
   |4 / ((p.geometry + 2 - p.omega) * (p.gamma + 1)) - 2 / ((p.gamma - 1) * p.geometry + 2)| ≤ 1 / 10000
 
+/-- pins: the decisions of the traced constructor, by number (kept for documentation; no proof below uses them any
+more — the trees are pruned by `epv_semi_prune`, which does not look at condition numbers).  The NUMBERING is part
+of these statements: a reordering of the constructor's checks renumbers the conditions and falsifies them; the form
+of each test is not (`epv_semi_bridge_cond` compares up to normalisation). -/
+theorem init_c0 (p : SedovInit.P) : SedovInit.c0 p ↔ p.geometry = 1 := by epv_semi_bridge_cond
+theorem init_c2 (p : SedovInit.P) : SedovInit.c2 p ↔ p.geometry = 2 := by epv_semi_bridge_cond
+theorem init_c3 (p : SedovInit.P) : SedovInit.c3 p ↔ p.geometry = 3 := by epv_semi_bridge_cond
+theorem init_c1 (p : SedovInit.P) : SedovInit.c1 p ↔ p.gamma < 1 := by epv_semi_bridge_cond
+theorem init_c4 (p : SedovInit.P) : SedovInit.c4 p ↔ p.rho0 < 0 := by epv_semi_bridge_cond
+theorem init_c5 (p : SedovInit.P) : SedovInit.c5 p ↔ p.eblast < 0 := by epv_semi_bridge_cond
+theorem init_c6 (p : SedovInit.P) : SedovInit.c6 p ↔ p.omega < 0 := by epv_semi_bridge_cond
+theorem init_c7 (p : SedovInit.P) : SedovInit.c7 p ↔ p.geometry ≤ p.omega := by epv_semi_bridge_cond
+
 /-- bridge (GUIDE §8): the traced decision "solution type singular" is the documented test, however the
 Python writes v2 and vstar (compared up to ring normalisation inside the absolute value).  The only
 decision of the constructor the theorems name; the validation checks (geometry, γ, ρ₀, E, ω) are pruned
